@@ -208,7 +208,7 @@ def one_case(ctx, m):
 
 
 def run(ctx):
-    n = ctx.n(120, 800) if ctx.driver is not None else ctx.n(200, 1000)
+    n = ctx.n(200, 1200) if ctx.driver is not None else ctx.n(300, 1500)
     for name, obj in C.corpus_cases(PROP):
         try:
             mm = G.from_json(obj['input']['mesh'])
